@@ -37,7 +37,7 @@ def main():
            "Each row is one independently written change kept under `seeded/<name>/` (patch.diff, demo.py, meta.json).",
            "`demo` = exit status of demo.py on the clean copy / on the patched copy (confirmed by `tools/seeded.py`).",
            "`target` = verdict of the quick check of the property the change was written against; `also caught by` = other quick checks that",
-           "exit 1 on the patched copy (from the all-properties runs).", "",
+           "exit 1 on the patched copy (from the all-properties runs, made for the first three rounds only; `-` elsewhere means not run).", "",
            "| change | property | what was changed | needs | demo | target check | first bucket | also caught by |", "|---|---|---|---|---|---|---|---|"]
     for name in sorted(target):
         sd = os.path.join(HERE, "seeded", name)
